@@ -26,6 +26,8 @@ structure Cfg where
   pvOpt : Nat
   v : Bool
   pre : Bytes
+  /-- where the destination is positioned when the encoder gets it (`pre.length` unless `pos=` says otherwise) -/
+  pos : Nat
   faults : List (Nat × Nat)
   hasF : Bool
   cont : Bool
@@ -61,9 +63,13 @@ def parse (args : List String) (needKind : Bool) : Option Cfg := do
     | some s => s != "-" && !s.isEmpty
     | none => false
   if (fs.map (·.1)).eraseDups.length != fs.length then none
+  let pos ← match kv.lookup "pos" with
+    | some p => p.toNat?
+    | none => some pre.length
+  if pos > pre.length then none
   pure { kind := kind, bs := bs, stream := kv.lookup "m" == some "s",
          o := Drv.W.mkOpts (Drv.W.kvGet kv "a") (Drv.W.kvGet kv "h") (Drv.W.kvGet kv "l"),
-         pvOpt := Drv.W.kvGet kv "pv", v := Drv.W.kvGet kv "v" == 1, pre := pre, faults := fs, hasF := hasF,
+         pvOpt := Drv.W.kvGet kv "pv", v := Drv.W.kvGet kv "v" == 1, pre := pre, pos := pos, faults := fs, hasF := hasF,
          cont := kv.lookup "c" == some "1", files := files }
 
 def faultsOf (fs : List (Nat × Nat)) : Faults := fun k => fs.lookup k
@@ -88,7 +94,7 @@ def fitIn (pvOpt : Nat) (f : Drv.W.WFile) : FitIn :=
 /-- one run (mirror of `wrRun` in the harness) for a validator `V` -/
 def runWith {σ : Type} (V : MsgValidator σ) (sc : StreamCfg) (c : Cfg) (fs : List (Nat × Nat)) : Out := Id.run do
   let F := faultsOf fs
-  let d0 : Dest := { content := c.pre, pos := c.pre.length }
+  let d0 : Dest := { content := c.pre, pos := c.pos }
   let mut out : Out := { d := d0 }
   let note := fun (out : Out) (before : Nat) (d : Dest) (r : Res) =>
     let fired := failedInjected d - before
@@ -178,9 +184,9 @@ def faultPoints (log : List DOp) : List (Nat × Nat) := Id.run do
   return pts.toList
 
 /-- replay of an operation log (oldest first) on a destination: the first `k` operations in full, `j` bytes of operation `k` -/
-def replay (pre : Bytes) (ops : List DOp) (k j : Nat) : Bytes := Id.run do
+def replay (pre : Bytes) (pos0 : Nat) (ops : List DOp) (k j : Nat) : Bytes := Id.run do
   let mut c := pre
-  let mut pos := pre.length
+  let mut pos := pos0
   let mut i := 0
   for op in ops do
     if i > k then break
@@ -212,8 +218,8 @@ def execWrX (args : List String) : String :=
         | _ => ""
       -- self-check of the model: the single-fault run leaves the crash state of the healthy run's operation sequence
       -- … stated with the definitions of C11_fault_is_crash_prefix: the destination is the replay of `crashOps k j` of the healthy log
-      let crash := ({ content := c.pre, pos := c.pre.length } : Dest).run (crashOps k j base.d.log.reverse)
-      let tail := if o.d.content == replay c.pre base.d.log.reverse k j && o.d.log.length == k + 1 &&
+      let crash := ({ content := c.pre, pos := c.pos } : Dest).run (crashOps k j base.d.log.reverse)
+      let tail := if o.d.content == replay c.pre c.pos base.d.log.reverse k j && o.d.log.length == k + 1 &&
           o.d.content == crash.content && o.d.pos == crash.pos && o.d.log == crash.log then tail else tail ++ "/not-a-crash-prefix"
       s!" {k}.{j}={joinOr (o.results.toList.map resName)}/{joinOr (o.hits.toList.map toString)}/{hexN 16 (fnv o.d.content).toNat}/{showCi ci}{tail}"
     s!"n={pts.length}{String.join entries}"
@@ -280,7 +286,7 @@ def c11Run (c : Cfg) (results hits : List String) (ci : String) (out : Option By
   else if hits.any (fun h => match h.toNat? with
       | some i => results[i]? != some "err"
       | none => true) then some "fail:fault-swallowed"
-  else if ci.startsWith "ok" && !c.cont && zeroHeaders c && (specChain c c.stream).isSome && !(c.kind == .at && !c.pre.isEmpty) then
+  else if ci.startsWith "ok" && !c.cont && zeroHeaders c && (specChain c c.stream).isSome && !(c.kind == .at && !c.pre.isEmpty) && c.pos == c.pre.length then
     match out with
     | none => some "fail:answer"
     | some bs => if (boundaries c).contains bs then none else some "fail:incomplete-output-accepted"
@@ -303,7 +309,7 @@ def propWr (args : List String) (impl : String) : String :=
         | none =>
           -- C09: a fault-free, accepted run leaves exactly pre ++ encodeChain (write-at destinations: the encoder's own, i.e. empty before)
           if c.hasF then "ok"
-          else if c.kind == .at && !c.pre.isEmpty then "n/a"
+          else if (c.kind == .at && !c.pre.isEmpty) || c.pos != c.pre.length then "n/a"
           else match specChain c c.stream with
             | none => "n/a"
             | some fits =>
